@@ -359,3 +359,51 @@ def _same_val(a, b):
     if isinstance(a, Enum) and isinstance(b, Enum):
         return _same_val(a.d, b.d) and set(a.p) == set(b.p) and all(_same_val(a.p[k], b.p[k]) for k in a.p)
     return a is None and b is None
+
+
+def loops_of(ex, fn, args, st, watch_mem=()):
+    """every loop of fn on its own: for each loop head, the outcomes of one iteration started at the head over symbolic
+    loop-carried locals (stopping at any loop head).  Returns list of dict(head, carried {local: (var, ty)}, outs [Outcome], frame).
+    Loops are discovered in execution order; a loop is entered with the local values of the first path that reaches it."""
+    heads, succ = loop_heads(fn)
+    res = []
+    fr = ex.new_frame()
+    outs = ex.run_body(fn, args, st, fr=fr, stop=tuple(heads), top=True)
+    pending = [(o.at, o, fr) for o in outs if o.kind == 'stop']
+    seen = set()
+    guard = 0
+    while pending and guard < 16:
+        guard += 1
+        head, tmpl, tfr = pending.pop(0)
+        if head in seen:
+            continue
+        seen.add(head)
+        body = loop_blocks(fn, head, succ)
+        assigned = assigned_locals(fn, body)
+        carried = {}; init = {}
+        for (f, l), v in tmpl.state.mem.items():
+            if f != tfr:
+                continue
+            if l in assigned:
+                ty = fn.ltypes.get(l, '')
+                if ty in INTTY or ty == 'bool':
+                    var = z3.Int('%s_%s_%s' % (fn.name.split('::')[-1], head, l)) if ty != 'bool' else z3.Bool('%s_%s_%s' % (fn.name.split('::')[-1], head, l))
+                    carried[l] = (var, ty); init[l] = var
+                    if ty in INTTY:
+                        lo, hi = INTTY[ty]
+                        ex.side.append(z3.And(var >= lo, var <= hi))
+                else:
+                    init[l] = None
+            else:
+                init[l] = v
+        st1 = State()
+        for k, v in tmpl.state.mem.items():
+            if k[0] != tfr:
+                st1.mem[k] = v
+        fr2 = ex.new_frame()
+        outs2 = ex.run_body(fn, [], st1, fr=fr2, start=head, stop=tuple(heads), top=True, init_locals=init)
+        res.append(dict(head=head, carried=carried, outs=outs2, frame=fr2))
+        for o in outs2:
+            if o.kind == 'stop' and o.at not in seen:
+                pending.append((o.at, o, fr2))
+    return res
